@@ -8,7 +8,7 @@ cd /verif/checker && python3 - <<'PY'
 hooks={'rules_c02.go':('runC02',['c02Imports(r)']),'rules_c07.go':('runC07',['c07Imports(r)']),'rules_c08.go':('runC08',['c08Imports(r)']),
  'rules_c01.go':('runC01',['c01CleanupAlways(r)']),'rules_c03.go':('runC03',['c03SecondsUnit(r)']),'rules_c04.go':('runC04',['c04LabelLoopExits(r)']),
  'rules_c13.go':('runC13',['c13Imports(r)']),'rules_c15.go':('runC15',['c15Imports(r)']),'rules_c17.go':('runC17',['c17Imports(r)']),
- 'rules_c11.go':('runC11',['c11Extra(r)'])}
+ 'rules_c11.go':('runC11',['c11Extra(r)']),'rules_c10.go':('runC10',['c10Imports(r)']),'rules_c14.go':('runC14',['c14Imports(r)']),'rules_c16.go':('runC16',['c16Imports(r)'])}
 for path,(fn,calls) in hooks.items():
     s=open(path).read()
     i=s.index('func %s(r *Run) {' % fn); j=s.index('\n}\n', i)
